@@ -29,11 +29,12 @@ type mdoSeg struct {
 }
 
 var mdoWords = map[string][]string{
-	"w1":  {"alpha", "Lorem", "kiwi"},
-	"w2":  {"bravo", "ipsum", "mango"},
-	"w3":  {"charlie", "dolor", "peach"},
-	"u1":  {"中文", "日本語", "ñandú"},
-	"amp": {"amp", "amp", "amp"},
+	// fourth spelling: a short word, an unbreakable word longer than the narrow wrap width, a one-letter word
+	"w1":  {"alpha", "Lorem", "kiwi", "fig"},
+	"w2":  {"bravo", "ipsum", "mango", "incomprehensibilities"},
+	"w3":  {"charlie", "dolor", "peach", "x"},
+	"u1":  {"中文", "日本語", "ñandú", "Ελληνικά"},
+	"amp": {"amp", "amp", "amp", "amp"},
 }
 
 type mdoConc struct {
